@@ -66,11 +66,23 @@ check('C01', 'E2-world',
       'DESIGN.md section 7 C01')
 
 
+check('C04', 'E2-world',
+      'Weak claim, exploration only: over seeded histories (reads under other views that warm the per-view memo, data updates, group-state '
+      'replacement, IndexedData creation and index changes that travel through hub messages) every comparison asks glue for a view and '
+      'for the full result and requires get(view) == get()[view] in shape and content, and IndexedData values / masks / statistics / '
+      'histograms to equal the parent slice. The attribute-kind x selection-kind x view-kind product is an input space: coverage is what '
+      'the workload reaches (reported as fingerprints), not an enumeration.',
+      'glue is its own reference for the full array; the (dependency class, view kind) pairs of the 12 open findings (world-coordinate '
+      'dependent attributes under boolean / index-array / empty views, categorical selections under all-integer views) are excluded by guards.',
+      'deterministic simulation (history of reads / index changes / updates) + view-consistency invariant at observation time',
+      'DESIGN.md section 7 C04')
+
+
 def na(pid, reason):
     NA[pid] = dict(property_id=pid, reason=reason)
 
 PENDING = 'check under construction in this build round (see DESIGN.md section 7); not claimed until its oracle is proven sound on the unchanged tree'
-for pid in ['C02', 'C04', 'C11', 'C12', 'C14', 'C16', 'C17', 'C18', 'C19']:
+for pid in ['C02', 'C11', 'C12', 'C14', 'C16', 'C17', 'C18', 'C19']:
     na(pid, PENDING)
 na('C08', 'pure function of region parameters and points: no schedule, clock, fault, shared state or history for a simulator to vary (DESIGN.md section 8)')
 na('C09', 'pure translation roi -> subset state; nothing stateful or faulty involved (DESIGN.md section 8)')
